@@ -251,7 +251,14 @@ def asyncstack_balance(run, F):
                                   'constructor activates an async stack frame but the destructor of %s never deactivates it' % f['record'])
                 continue
             posts = {x for x, ev in G.ev.items() if ev.get('k') == 'call' and ev['callee'].get('name') in DEACT}
-            if not G.must_reach_before_exit(node, posts):
+            # the balancing call must come before the root object named in the activation dies (end of its scope)
+            rootvar = (e['callee'].get('base') or '').split('.')[0]
+            dies = {x for x, ev in G.ev.items() if ev.get('k') == 'scope_end' and ev.get('var') == rootvar} if rootvar and rootvar != 'this' else set()
+            early = dies & G.reach([m for m, _ in G.succ.get(node, [])], blocked=posts)
+            if early:
+                run.violation(f['qname'], 'activate-outlives-root', '%s:%s' % (f['file'], e['line']),
+                              'an async stack frame is activated on the local ScopedAsyncStackRoot `%s`, and a path reaches the end of that root\'s scope (line %s) without deactivating the frame or resuming the coroutine that owns it: the root is destroyed with its top frame still set (the debug build asserts, the release build leaves frame->stackRoot dangling)' % (rootvar, G.line(sorted(early)[0])))
+            elif not G.must_reach_before_exit(node, posts):
                 run.violation(f['qname'], 'activate-unbalanced', '%s:%s' % (f['file'], e['line']),
                               'an async stack frame is activated and a path reaches the end of the function without deactivating it or resuming the coroutine that owns it')
     # ScopedAsyncStackRoot ctor/dtor pairing
